@@ -183,12 +183,14 @@ func c11ListJob() Job {
 				}
 			}
 			for _, sortp := range []string{"", "ip asc", "ip desc", "ip"} {
-				for _, size := range []int{1, 2, 3, 5, 10} {
+				// page sizes as the client writes them: numbers, and the values for which the documented default applies
+				// ("if size <= 0, size = 10"; the same for an absent or unreadable value)
+				for si, size := range []string{"1", "2", "3", "5", "10", "0", "-1", "abc", ""} {
 					var got []string
 					pages := 0
 					for page := 0; page < 100; page++ {
-						qq := fmt.Sprintf("%s&sort=%s&size=%d&page=%d", q, url.QueryEscape(sortp), size, page)
-						vmap.Rotation = page*5 + size // every request sees the tables in a different iteration order
+						qq := fmt.Sprintf("%s&sort=%s&size=%s&page=%d", q, url.QueryEscape(sortp), url.QueryEscape(size), page)
+						vmap.Rotation = page*5 + si + 1 // every request sees the tables in a different iteration order
 						_, resp := w.APIList(qq)
 						vmap.Rotation = 0
 						r.evals++
@@ -202,17 +204,17 @@ func c11ListJob() Job {
 					}
 					r.distinct[hashOf(q, sortp, size, got)] = true
 					if len(r.samples) < 3 && r.evals%97 == 1 {
-						r.samples = append(r.samples, fmt.Sprintf("GET /v1/ip?%s sort=%q size=%d: %d pages -> %v", q, sortp, size, pages, got))
+						r.samples = append(r.samples, fmt.Sprintf("GET /v1/ip?%s sort=%q size=%q: %d pages -> %v", q, sortp, size, pages, got))
 					}
 					a, b := append([]string{}, got...), append([]string{}, fullIPs...)
 					sort.Strings(a)
 					sort.Strings(b)
 					if fmt.Sprint(a) != fmt.Sprint(b) {
 						r.violate("C11", "api/list-pages", "list", "paging-does-not-show-every-ip-exactly-once", "ListIPs",
-							fmt.Sprintf("query %q sort %q size %d: pages give %v, complete list %v", q, sortp, size, got, fullIPs), []string{q})
+							fmt.Sprintf("query %q sort %q size %q: pages give %v, complete list %v", q, sortp, size, got, fullIPs), []string{q})
 					}
 					if !ipOrdered(got, sortp == "ip desc") {
-						r.violate("C11", "api/list-pages", "list", "pages-not-in-ip-order", "ListIPs", fmt.Sprintf("query %q sort %q size %d: %v", q, sortp, size, got), []string{q})
+						r.violate("C11", "api/list-pages", "list", "pages-not-in-ip-order", "ListIPs", fmt.Sprintf("query %q sort %q size %q: %v", q, sortp, size, got), []string{q})
 					}
 				}
 			}
@@ -388,7 +390,7 @@ func init() {
 	register(&Property{ID: "C11", Level: "exploration", QuickS: 60, ThoroughS: 300,
 		Assume: []string{"names from an 8-element DNS-1123 menu (incl. dotted, dashed, numeric), 7 owner shapes, 4 pool names; one IPAM state containing every key shape (pod keys, reserve keys, pool keys, bare pod, TApp, admin reservation, unallocated)",
 			"the real api.Controller is driven through a go-restful container (HTTP request/response level)"},
-		Rule: "(1) all namespace x pod-name x owner x pool combinations: FormatKey injective over distinct (namespace, pod), ParseKey/NewKeyObj round trip; (2) GET /v1/ip for 12 queries x 4 sort values x 5 page sizes x all pages vs. the unpaged list; " +
+		Rule: "(1) all namespace x pod-name x owner x pool combinations: FormatKey injective over distinct (namespace, pod), ParseKey/NewKeyObj round trip; (2) GET /v1/ip for 12 queries x 4 sort values x 9 page-size values (numbers, 0, negative, unreadable, absent) x all pages vs. the unpaged list; " +
 			"(3) every listed entry posted back verbatim (and with appType omitted for statefulset entries) on a fresh replay of the state, every ordered pair of such entries in one request (== one by one), plus every (ip, foreign identity) cross pair; distinct/non-trivial = distinct (input, outcome) pairs",
 		Jobs: func(tier string) []Job { return []Job{c11KeysJob(), c11ListJob(), c11ReleaseJob()} }})
 	replayers["C11"] = replayDescOnly
